@@ -167,6 +167,15 @@ pub fn pinned(prop: &str) -> Vec<SProg> {
                 main.extend([Join(1), Join(2)]);
                 v.push(sp(vec![main, waiter(0), waiter(1)]));
             }
+            // a lock-order inversion whose second party is released by a third thread (a message, an unpark, a notification,
+            // a thread exit): the deadlock is reachable only when the gate opens while the first party sits between its locks
+            let inv_a = vec![Lock(0), Lock(1), Unlock(1), Unlock(0)];
+            let inv_b = |gate: SOp| vec![gate, Lock(1), Lock(0), Unlock(0), Unlock(1)];
+            for (gate, opener) in [(Recv, vec![Send(1)]), (Park, vec![Unpark(0)]), (NWait, vec![NNotify]), (Join(2), vec![AStore(0, 1)]), (Recv, vec![AStore(0, 1), Send(1)])] {
+                v.push(sp(vec![inv_b(gate), inv_a.clone(), opener.clone()]));
+                // control: the same order on both sides cannot deadlock
+                v.push(sp(vec![vec![gate, Lock(0), Lock(1), Unlock(1), Unlock(0)], inv_a.clone(), opener]));
+            }
             // a deadlock that needs a try_lock to FAIL (the thread parks for good only then)
             v.push(sp(vec![vec![TryLock(0), SkipUnlessLast(0, 1), Park, Unlock(0)], vec![Lock(0), Unlock(0)]]));
             v.push(sp(vec![vec![Lock(0), Unlock(0), Join(1)], vec![TryLock(0), SkipUnlessLast(0, 1), Park, Unlock(0)]]));
@@ -190,6 +199,13 @@ pub fn pinned(prop: &str) -> Vec<SProg> {
                 }
             }
             v.push(sp(vec![[round_unlocked(NotifyAll), vec![Join(1), Join(2)]].concat(), vec![Lock(0), CvWaitUntil(1), Unlock(0)], vec![Lock(0), CvWaitUntil(1), Unlock(0)]]));
+            // the wait-then-check loop: wait again only while the flag is not seen. A notification stored before the wait is not
+            // lost by the spurious return, so the second wait cannot block (the flag is relaxed: after the spurious return the
+            // waiter may still read the old value)
+            v.push(sp(vec![vec![RStore(0, 1), NNotify, Join(1)], vec![NWait, RLoad(0), SkipUnlessLast(0, 1), NWait]]));
+            v.push(sp(vec![vec![NWait, RLoad(0), SkipUnlessLast(0, 1), NWait, Join(1)], vec![RStore(0, 1), NNotify]]));
+            v.push(sp(vec![vec![RStore(0, 1), NNotify, Join(1)], vec![NWait, RLoad(0), SkipUnlessLast(0, 3), NWait, RLoad(0), SkipUnlessLast(0, 1), NWait]]));
+            v.push(sp(vec![vec![RStore(0, 1), NNotify, RStore(1, 1), NNotify, Join(1)], vec![NWait, RLoad(1), SkipUnlessLast(0, 1), NWait]]));
             // loom models ONE spurious return per Notify object: with k notifications at most k + 1 waits return
             v.push(sp(vec![vec![NWait, NWait, NWait], vec![NNotify]]));
             v.push(sp(vec![vec![NWait, NWait, NWait, NWait], vec![NNotify, NNotify]]));
